@@ -203,7 +203,7 @@ pub fn property() -> Property {
         hang_is_violation: false,
         subs: vec![
             EnumSub::new("nth_exhaustive", true, nth_items, check_selector).boxed(),
-            PropSub::new("random", 30_000, 300_000, sel_case, check_selector).with_validity(|c| c.doc.valid() && !c.selectors.is_empty() && c.selectors.iter().all(|s| !s.steps.is_empty())).boxed(),
+            PropSub::new("random", 30_000, 300_000, sel_case, check_selector).with_validity(|c| c.doc.valid() && !c.selectors.is_empty() && c.selectors.iter().all(complex_valid)).boxed(),
         ],
     }
 }
